@@ -772,7 +772,86 @@ func (g *c09Gen) directed(name string, epoch, tp, start uint64, vals []common.Ad
 	return ops
 }
 
+// directedTwin: two clients created from the same head (height 100, three validators k0..k2, epoch 100);
+// header 101 = H sealed by k1, F = H with the seal of the outsider key k8.
+//   seen  : H -> client 1, F -> client 0 (refused), H -> client 0 (accepted)
+//   dry   : H on a dropped context of client 0, F -> client 0 (refused), H -> client 0 (accepted)
+//   first : F -> client 0 (refused), H -> client 0 (accepted), F -> client 1 (refused), H -> client 1 (accepted)
+func (g *c09Gen) directedTwin(name string) {
+	var ops []string
+	emit := func(op string) string {
+		ops = append(ops, op)
+		return g.emit(op)
+	}
+	k := g.directedKeys(9)
+	emit("reset")
+	g.chainID, g.epoch, g.tp, g.oldTime, g.fresh, g.handover = 56, 100, 999_999_999, false, false, false
+	vals := k[:3]
+	extra := make([]byte, 32)
+	for _, a := range vals {
+		extra = append(extra, a.Bytes()...)
+	}
+	extra = append(extra, make([]byte, 65)...)
+	zero := make([]byte, 32)
+	head := &bsctypes.Header{
+		Height: clienttypes.NewHeight(0, 100), ParentHash: zero, UncleHash: c09UncleHash.Bytes(), Coinbase: k[0].Bytes(),
+		Root: zero, TxHash: zero, ReceiptHash: zero, Difficulty: []byte{2}, GasLimit: 30_000_000, GasUsed: 21000, Time: 100,
+		Extra: extra, MixDigest: zero, Nonce: make([]byte, 8),
+	}
+	g.seal(head, k[0])
+	cr := c09CreateOp(56, 100, g.tp, 100, c09AddrBytes(vals), head)
+	emit(cr)
+	emit(c09At(cr, 1))
+	g.w.sel(0)
+	cs := g.w.clientState(g.w.ctx)
+	if cs == nil {
+		return
+	}
+	h := &bsctypes.Header{
+		Height: clienttypes.NewHeight(0, 101), ParentHash: cs.Header.Hash().Bytes(), UncleHash: c09UncleHash.Bytes(), Coinbase: k[1].Bytes(),
+		Root: crypto.Keccak256([]byte{101}), TxHash: zero, ReceiptHash: zero, Difficulty: []byte{1}, GasLimit: 30_000_000, GasUsed: 21000,
+		Time: 103, Extra: make([]byte, 97), MixDigest: zero, Nonce: make([]byte, 8),
+	}
+	if c09InTurn(cs, k[1]) {
+		h.Difficulty = []byte{2}
+	}
+	g.seal(h, k[1])
+	f := *h
+	f.Extra = append([]byte{}, h.Extra...)
+	c09Sign(&f, 56, g.keyOf[k[8]])
+	H, F := c09UpdateOp(103, 56, h), c09UpdateOp(103, 56, &f)
+	var last string
+	switch name {
+	case "twin-seen":
+		emit(c09At(H, 1))
+		emit(F)
+		last = emit(H)
+	case "twin-dry":
+		emit("dry" + H[len("update"):])
+		emit(F)
+		last = emit(H)
+	default:
+		emit(F)
+		emit(H)
+		emit(c09At(F, 1))
+		last = emit(c09At(H, 1))
+	}
+	if strings.HasPrefix(last, "ok") {
+		g.r.Count("directed." + name + ".last-accepted")
+	} else {
+		g.r.Count("directed." + name + ".last-rejected")
+	}
+	emit("cons")
+	emit("cons@1")
+	if d := os.Getenv("VERIF_C09_WRITE_CORPUS"); d != "" {
+		_ = os.WriteFile(filepath.Join(d, name+".ops"), []byte("# C09 directed history: "+name+" (see harness/c09_gen_test.go)\n"+strings.Join(ops[1:], "\n")+"\n"), 0o644)
+	}
+}
+
 func (g *c09Gen) allDirected() {
+	g.directedTwin("twin-seen")
+	g.directedTwin("twin-dry")
+	g.directedTwin("twin-forgery-first")
 	k := g.directedKeys(9)
 	k21 := g.directedKeys(21)
 	// number < limit: epoch 2, client created at height 2 (height 0-0 is refused by ClientState.Validate)
@@ -816,6 +895,222 @@ func (g *c09Gen) allDirected() {
 	g.directed("growth", 4, 999_999_999, 4, k[:3], k[0], 100, []c09Step{
 		{bt: 103, signer: k[1], time: 103}, {bt: 106, signer: k[0], time: 106}, {bt: 109, signer: k[1], time: 109},
 		{bt: 112, signer: k[2], time: 112, next: k}, {bt: 115, signer: k[1], time: 115}, {bt: 118, signer: k[0], time: 118}})
+}
+
+// ---- twin histories: two clients of the same chain in one process, discarded executions, re-sealed copies ---
+//
+// For every height a genuine header H (sealed by an eligible validator) and copies of H that differ ONLY in the
+// trailing 65 seal bytes: sealed by an outsider key, by another validator, random bytes, the seal of the
+// previous header, recovery id flipped. Orders:
+//   seen-on-twin  : H -> client 1 (accepted); copies -> client 0 (all refused); H -> client 0 (accepted)
+//   forgery-first : copies -> client 0 (refused); H -> client 0 (accepted); H -> client 1; copies -> client 1 (stale)
+//   dry           : H on a dropped context of client 0 (dry-ok); copies -> client 0 (refused), one copy dry (dry-err);
+//                   H -> client 0 (accepted); H -> client 1
+// Verification must be a function of (committed client state, header): TM.Bsc.frame / accept_independent.
+
+func c09At(op string, i int) string {
+	if i == 0 {
+		return op
+	}
+	j := strings.IndexByte(op, ' ')
+	if j < 0 {
+		return op + "@1"
+	}
+	return op[:j] + "@1" + op[j:]
+}
+
+type c09Copy struct {
+	kind string
+	h    *bsctypes.Header
+}
+
+func (g *c09Gen) copies(h *bsctypes.Header, signer common.Address, prev *bsctypes.Header, members map[common.Address]bool) []c09Copy {
+	clone := func() *bsctypes.Header {
+		c := *h
+		c.Extra = append([]byte{}, h.Extra...)
+		return &c
+	}
+	var out []c09Copy
+	// outsider key
+	for _, a := range g.addrs {
+		if !members[a] {
+			c := clone()
+			c09Sign(c, g.chainID, g.keyOf[a])
+			out = append(out, c09Copy{"outsider-seal", c})
+			break
+		}
+	}
+	// another validator of the set (coinbase unchanged)
+	for _, a := range c09Sorted(members) {
+		if k, ok := g.keyOf[a]; ok && a != signer {
+			c := clone()
+			c09Sign(c, g.chainID, k)
+			out = append(out, c09Copy{"other-validator-seal", c})
+			break
+		}
+	}
+	c := clone()
+	copy(c.Extra[len(c.Extra)-65:], g.rnd(65))
+	c.Extra[len(c.Extra)-1] = byte(g.r.Rng.Intn(2))
+	out = append(out, c09Copy{"random-seal", c})
+	if prev != nil && len(prev.Extra) >= 65 {
+		c = clone()
+		copy(c.Extra[len(c.Extra)-65:], prev.Extra[len(prev.Extra)-65:])
+		out = append(out, c09Copy{"seal-of-previous-header", c})
+	}
+	c = clone()
+	c.Extra[len(c.Extra)-1] ^= 1
+	out = append(out, c09Copy{"recovery-id-flipped", c})
+	g.r.Rng.Shuffle(len(out), func(i, j int) { out[i], out[j] = out[j], out[i] })
+	return out[:1+g.r.Rng.Intn(len(out))]
+}
+
+func (g *c09Gen) twin(n0 int, epoch uint64, startK uint64, steps int) {
+	r := g.r
+	g.emit("reset")
+	g.chainID = []uint64{56, 97, 1, 714}[r.Rng.Intn(4)]
+	g.epoch, g.tp, g.btStep, g.oldTime, g.fresh, g.handover = epoch, 999_999_999, 3, false, false, false
+	g.bt = 1_700_000_000
+	vals := g.subset(n0)
+	start := startK * epoch
+	extra := g.rnd(32)
+	for _, a := range g.nextSet(vals) {
+		extra = append(extra, a.Bytes()...)
+	}
+	extra = append(extra, make([]byte, 65)...)
+	sealer := vals[r.Rng.Intn(len(vals))]
+	head := &bsctypes.Header{
+		Height: clienttypes.NewHeight(0, start), ParentHash: g.rnd(32), UncleHash: c09UncleHash.Bytes(), Coinbase: sealer.Bytes(),
+		Root: g.rnd(32), TxHash: g.rnd(32), ReceiptHash: g.rnd(32), Difficulty: []byte{2}, GasLimit: 30_000_000, GasUsed: 21000, Time: g.bt - 10,
+		Extra: extra, MixDigest: make([]byte, 32), Nonce: make([]byte, 8),
+	}
+	g.seal(head, sealer)
+	cr := c09CreateOp(g.chainID, g.epoch, g.tp, g.bt, c09AddrBytes(vals), head)
+	if !strings.HasPrefix(g.emit(cr), "ok") || !strings.HasPrefix(g.emit(c09At(cr, 1)), "ok") {
+		r.Count("twin.create-failed")
+		return
+	}
+	r.Count("twin.histories")
+	submit := func(i int, kind string, h *bsctypes.Header, dry bool) string {
+		op := c09UpdateOp(g.bt, g.chainID, h)
+		if dry {
+			op = "dry" + op[len("update"):]
+		}
+		return g.emit(c09At(op, i))
+	}
+	forge := func(i int, cps []c09Copy, phase string) {
+		for _, c := range cps {
+			out := submit(i, c.kind, c.h, false)
+			if strings.HasPrefix(out, "ok") {
+				r.Count("twin.copy." + c.kind + ".accepted")
+				r.Count("twin.copy.accepted")
+			} else {
+				r.Count("twin.copy." + c.kind + ".refused")
+				r.Count("twin.copy.refused." + phase)
+			}
+			r.Nontrivial("twin " + phase + " " + c.kind + fmt.Sprint(" n=", n0))
+		}
+	}
+	for s := 0; s < steps; s++ {
+		g.w.sel(0)
+		cs0 := g.w.clientState(g.w.ctx)
+		g.w.sel(1)
+		cs1 := g.w.clientState(g.w.ctx)
+		if cs0 == nil || cs1 == nil || cs0.Header.Height != cs1.Header.Height || cs0.Header.Hash() != cs1.Header.Hash() {
+			r.Count("twin.desynchronised") // only possible after an accepted forgery
+			break
+		}
+		g.w.sel(0)
+		g.bt += 3
+		pcs := *cs0
+		pcs.Validators = g.w.presVals
+		cs := &pcs
+		members := c09Distinct(cs.Validators)
+		set := c09Sorted(members)
+		n := len(set)
+		if n == 0 {
+			break
+		}
+		num := cs.Header.Height.RevisionHeight + 1
+		var cur []common.Address
+		for _, v := range cs.Validators {
+			cur = append(cur, common.BytesToAddress(v))
+		}
+		next := cur
+		if num%g.epoch == 0 {
+			next = g.nextSet(cur)
+		}
+		var elig []common.Address
+		for _, a := range set {
+			rec := false
+			for d := uint64(1); d <= uint64(n/2) && d <= num; d++ {
+				if who, ok := g.w.sealedBy[num-d]; ok && who == a {
+					rec = true
+				}
+			}
+			if _, ok := g.keyOf[a]; ok && !rec {
+				elig = append(elig, a)
+			}
+		}
+		if len(elig) == 0 {
+			break
+		}
+		signer := elig[r.Rng.Intn(len(elig))]
+		if it := set[num%uint64(n)]; r.Rng.Intn(3) > 0 {
+			for _, a := range elig {
+				if a == it {
+					signer = it
+				}
+			}
+		}
+		h := g.build(cs, signer, next)
+		g.seal(h, signer)
+		prev := cs0.Header
+		cps := g.copies(h, signer, &prev, members)
+		ok := func(out string) bool { return strings.HasPrefix(out, "ok") }
+		genuine := func(i int) bool {
+			if ok(submit(i, "genuine", h, false)) {
+				r.Count("twin.genuine.accepted")
+				return true
+			}
+			r.Count("twin.genuine.refused")
+			return false
+		}
+		good := true
+		switch mode := r.Rng.Intn(3); mode {
+		case 0:
+			r.Count("twin.mode.seen-on-twin")
+			good = genuine(1)
+			forge(0, cps, "after-seen-on-twin")
+			good = genuine(0) && good
+		case 1:
+			r.Count("twin.mode.forgery-first")
+			forge(0, cps, "before-genuine")
+			good = genuine(0)
+			good = genuine(1) && good
+			forge(1, cps[:1], "stale")
+		default:
+			r.Count("twin.mode.dry")
+			if submit(0, "genuine", h, true) == "dry-ok" {
+				r.Count("twin.dry.genuine.ok")
+			} else {
+				r.Count("twin.dry.genuine.refused")
+			}
+			if submit(0, cps[0].kind, cps[0].h, true) == "dry-ok" {
+				r.Count("twin.dry.copy.ok")
+			} else {
+				r.Count("twin.dry.copy.refused")
+			}
+			forge(0, cps, "after-discarded-execution")
+			good = genuine(0)
+			good = genuine(1) && good
+		}
+		if !good {
+			break
+		}
+	}
+	g.emit("cons")
+	g.emit("cons@1")
 }
 
 func c09Epochs(r *Rec) uint64 {
@@ -905,5 +1200,9 @@ func TestC09(t *testing.T) {
 			}
 		}
 		g.history(p)
+		if i%4 == 0 { // two clients of one chain, discarded executions, re-sealed copies
+			n0 := []int{1, 2, 3, 4, 7, 21}[r.Rng.Intn(6)]
+			g.twin(n0, []uint64{3, 5, 8, 50, 200}[r.Rng.Intn(5)], uint64(1+r.Rng.Intn(30)), 6+r.Rng.Intn(14))
+		}
 	}
 }
